@@ -19,16 +19,6 @@ Definition expected_src_Condition_notify : string := (String.concat nl ["(self)"
 Lemma src_Condition_notify_ok : src_Condition_notify = expected_src_Condition_notify. Proof. reflexivity. Qed.
 Definition expected_src_Condition_notify_all : string := (String.concat nl ["(self)"; "assert self._lock._semlock._is_mine(), 'lock is not owned'"; "assert not self._wait_semaphore.acquire(False)"; "while self._woken_count.acquire(False):"; "    res = self._sleeping_count.acquire(False)"; "    assert res"; "sleepers = 0"; "while self._sleeping_count.acquire(False):"; "    self._wait_semaphore.release()"; "    sleepers += 1"; "if sleepers:"; "    for _ in range(sleepers):"; "        self._woken_count.acquire()"; "    while self._wait_semaphore.acquire(False):"; "        pass"]).
 Lemma src_Condition_notify_all_ok : src_Condition_notify_all = expected_src_Condition_notify_all. Proof. reflexivity. Qed.
-Definition expected_src_Event_init : string := (String.concat nl ["(self)"; "self._cond = Condition(Lock())"; "self._flag = Semaphore(0)"]).
-Lemma src_Event_init_ok : src_Event_init = expected_src_Event_init. Proof. reflexivity. Qed.
-Definition expected_src_Event_is_set : string := (String.concat nl ["(self)"; "with self._cond:"; "    if self._flag.acquire(False):"; "        self._flag.release()"; "        return True"; "    return False"]).
-Lemma src_Event_is_set_ok : src_Event_is_set = expected_src_Event_is_set. Proof. reflexivity. Qed.
-Definition expected_src_Event_set : string := (String.concat nl ["(self)"; "with self._cond:"; "    self._flag.acquire(False)"; "    self._flag.release()"; "    self._cond.notify_all()"]).
-Lemma src_Event_set_ok : src_Event_set = expected_src_Event_set. Proof. reflexivity. Qed.
-Definition expected_src_Event_clear : string := (String.concat nl ["(self)"; "with self._cond:"; "    self._flag.acquire(False)"]).
-Lemma src_Event_clear_ok : src_Event_clear = expected_src_Event_clear. Proof. reflexivity. Qed.
-Definition expected_src_Event_wait : string := (String.concat nl ["(self, timeout)"; "with self._cond:"; "    if self._flag.acquire(False):"; "        self._flag.release()"; "    else:"; "        self._cond.wait(timeout)"; "    if self._flag.acquire(False):"; "        self._flag.release()"; "        return True"; "    return False"]).
-Lemma src_Event_wait_ok : src_Event_wait = expected_src_Event_wait. Proof. reflexivity. Qed.
 Definition expected_src_SemLock_getstate : string := (String.concat nl ["(self)"; "assert_spawning(self)"; "sl = self._semlock"; "h = sl.handle"; "return (h, sl.kind, sl.maxvalue, sl.name)"]).
 Lemma src_SemLock_getstate_ok : src_SemLock_getstate = expected_src_SemLock_getstate. Proof. reflexivity. Qed.
 Definition expected_src_SemLock_setstate : string := (String.concat nl ["(self, state)"; "self._semlock = _SemLock._rebuild(*state)"; "util.debug(f'recreated blocker with handle {state[0]!r} and name ""{state[3]}""')"; "self._make_methods()"]).
@@ -39,4 +29,4 @@ Definition expected_src_SemLock_enter : string := (String.concat nl ["(self)"; "
 Lemma src_SemLock_enter_ok : src_SemLock_enter = expected_src_SemLock_enter. Proof. reflexivity. Qed.
 Definition expected_src_SemLock_exit : string := (String.concat nl ["(self)"; "return self._semlock.release()"]).
 Lemma src_SemLock_exit_ok : src_SemLock_exit = expected_src_SemLock_exit. Proof. reflexivity. Qed.
-Definition sync_methods_unchanged := (src_Condition_init_ok, src_Condition_wait_ok, src_Condition_notify_ok, src_Condition_notify_all_ok, src_Event_init_ok, src_Event_is_set_ok, src_Event_set_ok, src_Event_clear_ok, src_Event_wait_ok, src_SemLock_getstate_ok, src_SemLock_setstate_ok, src_SemLock_make_methods_ok, src_SemLock_enter_ok, src_SemLock_exit_ok).
+Definition sync_methods_unchanged := (src_Condition_init_ok, src_Condition_wait_ok, src_Condition_notify_ok, src_Condition_notify_all_ok, src_SemLock_getstate_ok, src_SemLock_setstate_ok, src_SemLock_make_methods_ok, src_SemLock_enter_ok, src_SemLock_exit_ok).
